@@ -598,6 +598,11 @@ def extract_block(b: Block, snapshot: str, canary=False):
         text, nin = strip_inner_items(text)
         if nin:
             fired['R13'] = nin
+        # a helper function declared inside the body has no contract: its callers cannot be verified modularly (a failed proof there
+        # would mean "needs a contract", not "violates the property") -> the enclosing function is reported UNDECIDED
+        inner = re.findall(r'\bfn\s+(\w+)', rustlex.mask(text))[1:]
+        if inner:
+            raise ExtractError('nested fn without a contract in %s::%s: %s' % (b.file, b.fn, ', '.join(inner)))
     for old, new, cnt in b.substs:
         c = text.count(old)
         if cnt == 0:
@@ -812,7 +817,7 @@ def _lemma_canaries(text, first_line, out):
     return text
 
 
-def build_unit(template_path, units_dir, snapshot, canary=False):
+def build_unit(template_path, units_dir, snapshot, canary=False, force_stub=None):
     """Assemble the generated Verus file. Returns (text, metas) where metas carry gen line ranges."""
     parts = parse_template(template_path, units_dir)
     out_lines = []
@@ -833,14 +838,32 @@ def build_unit(template_path, units_dir, snapshot, canary=False):
                     cur_impl = None
         else:
             try:
+                qual_p = (cur_impl + '::' if cur_impl else '') + (p.rename or p.fn)
+                if force_stub and qual_p in force_stub and not p.stub and not getattr(p, 'item', False):
+                    raise ExtractError('subst anchor / verus: ' + force_stub[qual_p])
                 text, meta = extract_block(p, snapshot, canary)
             except ExtractError as e:
                 if p.optional and 'lost anchor' in str(e):
                     out_lines.append('// (optional extraction skipped: %s)' % e)
                     metas.append({'skipped': True, 'fn': p.rename or p.fn, 'file': p.file, 'gen_lines': [0, -1], 'line_map': {}})
                     continue
-                raise
-            if canary and not meta.get('item'):
+                msg = str(e)
+                if getattr(p, 'item', False) or p.stub or not (msg.startswith('subst anchor') or msg.startswith('ghostarg') or msg.startswith('R11') or msg.startswith('nested fn')):
+                    raise
+                # function-local fallback: a site-specific rewrite of THIS function no longer applies to the current source. The function
+                # is kept in the unit as its contract only (callers in the unit are still checked against it) and is reported UNDECIDED;
+                # the other functions of the unit are verified as usual.
+                import copy
+                q = copy.copy(p)
+                q.stub = True; q.substs = []; q.hints = []; q.ghostargs = []; q.loops = {}; q.loopstart = {}; q.loopend = {}
+                q.attrs = [a for a in p.attrs]
+                try:
+                    text, meta = extract_block(q, snapshot, canary)
+                except ExtractError:
+                    raise e
+                meta['fallback'] = msg
+                out_lines.append('// (body not extracted: %s)' % msg.replace('\n', ' ')[:300])
+            if canary and not meta.get('item') and not meta.get('fallback'):
                 ob = meta['body_open_off']
                 text = text[:ob + 1] + ' assert(false); ' + text[ob + 1:]
             g0 = len(out_lines) + 1
